@@ -177,8 +177,10 @@ def harness(eng, fam, P):
                         eng.check('C05.unchanged-rebuild-reruns', not extra, (fam, 'rerun', 'second' if n_unchanged >= 1 else 'first'),
                                   info={'rerun': extra, 'program': show(bodies[0]), 'history': desc})
                         same = True
+                        # outputs of functions that are legitimately re-run may be rewritten
+                        may_rewrite = set(bf_path[s_] for s_ in invoked if s_ in raised_before and s_ in bf_path)
                         for p, s in prev['post'].items():
-                            if s[0] == 'F' and p != w.cache:
+                            if s[0] == 'F' and p != w.cache and p not in may_rewrite:
                                 q = post.get(p)
                                 if q is None or q[0] != 'F' or q[1] != s[1]:
                                     eng.check('C05.output-rewritten', False, (fam, 'inode', w.rel(p)),
